@@ -13,9 +13,12 @@ harness/c13_hw.py otfad_load_table (independent OTFAD key-blob loader), which yi
 
 Also run by runpy inside a process forked from a harness process that has pre-imported third-party modules but nothing of spsdk.
 job    = {"repo": path, "dir": workdir, "keys": keydir, "hab": habdir, "user": {field: hex}, "fake_rng": ""|"const"|"cycle:N"|"const4",
-          "steps": [{"op":"Construct","art":n,"kind":K,"how":H,"ex":[fields]} | {"op":"Export","art":n}
+          "steps": [{"op":"Construct","art":n,"kind":K,"how":H,"ex":[fields],"opt":[names],"part":p,"parts":P} | {"op":"Export","art":n}
+                    (opt = the option combination of the entry point, Fresh!Opts; a build that emits P > 1 artefacts is P consecutive Construct
+                     steps: part 1 runs the entry point, the further parts only look at the artefacts it returned)
                     | {"op":"Reconfigure","art":n,"of":m,"kind":K,"how":"config","ex":[fields]}   (the OBJECT of artefact m is configured again)]}
-result = {"import_draws":[n,...], "steps":[{"op":..,"art":n,"fields":{name: hex}, "ctr":[keyhex,noncehex]|[], "draws":[[phase,n,hex]..]} | {"op":..,"error":..}]}
+result = {"import_draws":[n,...], "steps":[{"op":..,"art":n,"fields":{name: hex}, "ctr":[keyhex,noncehex]|[], "seen":[names] (Export: the options as the
+          exported bytes show them, Fresh!Seen), "draws":[[phase,n,hex]..]} | {"op":..,"error":..}]}
 """
 import json
 import os
@@ -135,11 +138,16 @@ def _sb_section(n):
     return BootSectionV2(0, CmdErase(address=0, length=0x1000), CmdLoad(address=0x100, data=app_binary(n)[:64]), CmdReset())
 
 
-def _adv(ex):
+def _adv(ex, opt=()):
+    """Advanced parameters: the fields the user supplies; option "ts": a given time stamp (an object that says nothing about the secrets)."""
     kw = {}
     for f in ("dek", "mac", "nonce"):
         if f in ex:
             kw[f] = USER[f"sb_{f}"]
+    if "ts" in opt:
+        from datetime import datetime
+
+        kw["timestamp"] = datetime(2024, 2, 29, 12, 34, 56)
     return SBV2xAdvancedParams(**kw)
 
 
@@ -161,23 +169,40 @@ def _sigprov():
     return _SIGPROV[0]
 
 
-def sb20_ctor(n, ex):
-    if ex:
-        return BootImageV20(False, KEK, _sb_section(n), advanced_params=_adv(ex))
-    return BootImageV20(False, KEK, _sb_section(n))
-
-
-def sb21_ctor(n, ex):
-    if ex:
-        img = BootImageV21(KEK, _sb_section(n), advanced_params=_adv(ex))
+def sb20_ctor(n, ex, opt):
+    signed = {"unsigned": False, "signed": True}[opt[0]]
+    if ex or "ts" in opt:
+        img = BootImageV20(signed, KEK, _sb_section(n), advanced_params=_adv(ex, opt))
     else:
-        img = BootImageV21(KEK, _sb_section(n))
+        img = BootImageV20(signed, KEK, _sb_section(n))
+    if signed:
+        img.cert_block = _sb_cert_block()
+        img.signature_provider = _sigprov()
+    return img
+
+
+def sb21_ctor(n, ex, opt):
+    kw = {} if opt[0] == "sha" else {"flags": BootImageV21.FLAGS_ENCRYPTED_SIGNED_BIT}   # "sha": the default flags (SHA-256 present + signed)
+    if ex or "ts" in opt:
+        kw["advanced_params"] = _adv(ex, opt)
+    img = BootImageV21(KEK, _sb_section(n), **kw)
     img.cert_block = _sb_cert_block()
     img.signature_provider = _sigprov()
     return img
 
 
-def sb21_config(n, ex):
+SB_FLAGS = {("SB20", 0x04): "unsigned", ("SB20", 0x08): "signed", ("SB21", 0x8008): "sha", ("SB21", 0x0008): "nosha"}
+
+
+def sb_seen(data, kind):
+    """flags word of the file header (offset 26)"""
+    (flags,) = struct.unpack_from("<H", data, 26)
+    if (kind, flags) not in SB_FLAGS:
+        raise RuntimeError(f"{kind} file header with the flags {flags:#x}")
+    return [SB_FLAGS[(kind, flags)]]
+
+
+def sb21_config(n, ex, opt):
     opts = {"flags": 0x8, "buildNumber": 1, "productVersion": "1.0.0", "componentVersion": "1.0.0"}
     for f in ("dek", "mac", "nonce"):
         if f in ex:
@@ -203,7 +228,9 @@ def sb_attrs(img, fields):
 
 
 def sb_export(img, kind):
-    return sb_read(img.export(), kind)
+    data = img.export()
+    SEEN[0] = sb_seen(data, kind) if getattr(img, "_c17_ctor", False) else []
+    return sb_read(data, kind)
 
 
 def sb_read(data, kind):
@@ -300,7 +327,7 @@ def _kw_config(n, ex):
     }
 
 
-def sb21kw_bd(n, ex):
+def sb21kw_bd(n, ex, opt):
     """As `nxpimage sb21 export -c file.bd -k .. -s .. -S .. -R ..`: BD text -> BDParser -> load_from_config."""
     path = os.path.join(job["dir"], f"sbkw_{n}.bd")
     with open(path, "w") as f:
@@ -319,7 +346,7 @@ def sb21kw_bd(n, ex):
     )
 
 
-def sb21kw_config(n, ex):
+def sb21kw_config(n, ex, opt):
     """The YAML form of the command file (keyblobs + sections with keywrap / encrypt commands) through load_from_config."""
     return BootImageV21.load_from_config(
         config=_kw_config(n, ex),
@@ -389,7 +416,7 @@ def _mbi_cfg(n, ex):
     return cfg
 
 
-def mbi_config(n, ex):
+def mbi_config(n, ex, opt):
     cfg = _mbi_cfg(n, ex)
     cls = get_mbi_class(cfg)
     obj = cls()
@@ -403,7 +430,7 @@ def mbi_reconfig(obj, n, ex):
     return obj
 
 
-def mbi_ctor(n, ex):
+def mbi_ctor(n, ex, opt):
     cfg = _mbi_cfg(n, ex)
     cls = create_mbi_class("encrypted_signed_ram", MBI_FAMILY)
     kw = dict(
@@ -414,7 +441,7 @@ def mbi_ctor(n, ex):
         signature_provider=_sigprov(),
         hmac_key=USER["mbi_key"],
         key_store=None,
-        user_hw_key_enabled=False,
+        user_hw_key_enabled={"hwk0": False, "hwk1": True}[opt[0]],
         app_table=None,
         family=MBI_FAMILY,
     )
@@ -451,12 +478,17 @@ def mbi_export(obj):
 OTFAD_KEK = bytes.fromhex("50f66bb4f23b855dcd8fefc0da59e963")
 
 
-def otfad_ctor(n, ex):
+OTFAD_FLAGS = (("ro", 0x4), ("ade", 0x2), ("vld", 0x1))   # bits 2..0 of the end-address word of a context (RO, ADE, VLD)
+
+
+def otfad_ctor(n, ex, opt):
     kw = {}
     if "key" in ex:
         kw["key"] = USER["otfad_key"]
     if "ctr" in ex:
         kw["counter_iv"] = USER["otfad_ctr"]
+    if list(opt) != ["ade", "vld"]:  # the default flags are the constructor's own default: nothing is passed
+        kw["key_flags"] = sum(bit for name, bit in OTFAD_FLAGS if name in opt)
     return KeyBlob(0x08001000, 0x0800F3FF, **kw)
 
 
@@ -467,12 +499,21 @@ def otfad_attrs(obj, fields):
 def otfad_export(obj):
     blob = obj.export(kek=OTFAD_KEK)
     plain = aes_key_unwrap(OTFAD_KEK, blob[:48])  # key[16] ctr[8] start[4] end[4] filler[4] crc[4]
+    (end_word,) = struct.unpack_from("<I", plain, 28)
+    SEEN[0] = [name for name, bit in OTFAD_FLAGS if end_word & bit]
     return {"key": plain[0:16], "ctr": plain[16:24], "filler": plain[32:36]}, [plain[0:16], plain[16:24]]
 
 
 # ---------------------------------------------------------------------------------------------- IEE
-def _iee(n, ex, mode, size):
-    attr = IeeKeyBlobAttribute(IeeKeyBlobLockAttributes.UNLOCK, size, mode)
+IEE_LOCK = {0x95: "lock", 0x59: "unlock"}                  # iee_keyblob_attribute_t.lock
+IEE_SIZE = {0x5A: "k128", 0xA5: "k256"}                    # .keySize: AES-128-CTR / 256-bit XTS key pair; AES-256-CTR / 512-bit XTS key pair
+IEE_MODE = {0xA6: "xts", 0x66: "ctr_addr", 0xAA: "ctr_noaddr", 0x19: "ctr_stream", 0x6A: "bypass"}   # .aesMode
+
+
+def _iee(n, ex, mode, opt):
+    lock = {"lock": IeeKeyBlobLockAttributes.LOCK, "unlock": IeeKeyBlobLockAttributes.UNLOCK}[opt[0]]
+    size = {"k128": IeeKeyBlobKeyAttributes.CTR128XTS256, "k256": IeeKeyBlobKeyAttributes.CTR256XTS512}[opt[1]]
+    attr = IeeKeyBlobAttribute(lock, size, mode)
     kw = {}
     if "key1" in ex:
         kw["key1"] = USER["iee_key1"][: attr.key1_size]
@@ -481,12 +522,14 @@ def _iee(n, ex, mode, size):
     return IeeKeyBlob(attr, 0x30001000, 0x3000FFFF, **kw)
 
 
-def iee_ctor(n, ex):
-    return _iee(n, ex, IeeKeyBlobModeAttributes.AesXTS, IeeKeyBlobKeyAttributes.CTR256XTS512)
+def iee_ctor(n, ex, opt):
+    return _iee(n, ex, IeeKeyBlobModeAttributes.AesXTS, opt)
 
 
-def ieectr_ctor(n, ex):
-    return _iee(n, ex, IeeKeyBlobModeAttributes.AesCTRWAddress, IeeKeyBlobKeyAttributes.CTR128XTS256)
+def ieectr_ctor(n, ex, opt):
+    mode = {"ctr_addr": IeeKeyBlobModeAttributes.AesCTRWAddress, "ctr_noaddr": IeeKeyBlobModeAttributes.AesCTRWOAddress,
+            "ctr_stream": IeeKeyBlobModeAttributes.AesCTRkeystream}[opt[2]]
+    return _iee(n, ex, mode, opt)
 
 
 def iee_attrs(obj, fields):
@@ -500,38 +543,65 @@ def iee_export(obj):
     if struct.unpack_from("<I", data, 0)[0] != 0x49454542:
         raise RuntimeError("IEE key blob tag missing")
     k1, k2 = data[16 : 16 + obj.attributes.key1_size], data[48 : 48 + obj.attributes.key2_size]
+    lock, size, mode = IEE_LOCK.get(data[8], "?"), IEE_SIZE.get(data[9], "?"), IEE_MODE.get(data[10], "?")
+    if (mode == "xts") == bool(obj.attributes.ctr_mode) or mode == "bypass":
+        raise RuntimeError(f"IEE key blob exported with the mode {mode} ({data[10]:#x})")
+    SEEN[0] = [lock, size] if mode == "xts" else [lock, size, mode]
     return {"key1": k1, "key2": k2}, ([k1, k2] if obj.attributes.ctr_mode else [])
 
 
 # ---------------------------------------------------------------------------------------------- BEE
-def bee_ctor(n, ex):
+def bee_ctor(n, ex, opt):
+    kw = {}
     if "sw_key" in ex:
-        hdr = BeeRegionHeader(sw_key=USER["bee_sw_key"])
-    else:
-        hdr = BeeRegionHeader()
+        kw["sw_key"] = USER["bee_sw_key"]
+    if opt[0] == "parts":  # the caller composes the header from a region block and a key info block, both built without secrets
+        kw["prdb"] = BeeProtectRegionBlock(lock_options={"lock0": 0, "lockF": 0xFFFFFFFF}[opt[1]])
+        kw["kib"] = BeeKIB()
+    hdr = BeeRegionHeader(**kw)
     hdr.add_fac(BeeFacRegion(0x60001000, 0x2000, 0))
     return hdr
 
 
-def bee_config(n, ex):
+class BeePart:
+    """One region header of a BeeNxp build: the artefact that is written to bee_ehdr<slot>.bin."""
+
+    def __init__(self, nxp, slot):
+        self.nxp, self.slot = nxp, slot
+
+
+def bee_config(n, ex, opt):
+    """As `nxpimage bee export`: generated region headers (bee_cfg) for engine 0, engine 1 or both - with two engine configurations (own user
+    key, own regions) whenever engine 1 takes part.  Returns one artefact per region header the build emits."""
     path = os.path.join(job["dir"], "bee_in.bin")
     with open(path, "wb") as f:
-        f.write(app_binary(n))
+        f.write(app_binary(n) * 2)
+    key1 = USER["bee_sw_key2"] if list(opt) == ["both", "diff"] else USER["bee_sw_key"]
+    engines = [{"bee_cfg": {"user_key": "0x" + USER["bee_sw_key"].hex(),
+                            "protected_region": [{"start_address": 0x60001000, "length": 0x400, "protected_level": 0}]}}]
+    if opt[0] != "engine0":
+        engines.append({"bee_cfg": {"user_key": "0x" + key1.hex(),
+                                    "protected_region": [{"start_address": 0x60001400, "length": 0x400, "protected_level": 1}]}})
     cfg = {
         "family": "mimxrt1050",
         "input_binary": path,
         "output_folder": job["dir"],
         "output_name": "bee",
         "base_address": 0x60001000,
-        "engine_selection": "engine0",
-        "bee_engine": [{"bee_cfg": {"user_key": "0x" + USER["bee_sw_key"].hex(),
-                                    "protected_region": [{"start_address": 0x60001000, "length": 0x400, "protected_level": 0}]}}],
+        "engine_selection": opt[0],
+        "engine_key_selection": "random",
+        "bee_engine": engines,
     }
-    return BeeNxp.load_from_config(cfg, search_paths=[job["dir"]])
+    nxp = BeeNxp.load_from_config(cfg, search_paths=[job["dir"]])
+    want = {"engine0": [0], "engine1": [1], "both": [0, 1]}[opt[0]]
+    if [i for i, h in enumerate(nxp.headers) if h is not None] != want:
+        raise RuntimeError(f"BeeNxp.load_from_config({opt[0]}) returned headers in the slots {[i for i, h in enumerate(nxp.headers) if h is not None]}")
+    parts = [BeePart(nxp, i) for i in want]
+    return parts if len(parts) > 1 else parts[0]
 
 
 def _bee_hdr(obj):
-    return obj if isinstance(obj, BeeRegionHeader) else obj.headers[0]
+    return obj if isinstance(obj, BeeRegionHeader) else obj.nxp.headers[obj.slot]
 
 
 def _bee_sw_key(h):
@@ -551,30 +621,35 @@ def bee_attrs(obj, fields):
 def bee_export(obj, sw_key_hint):
     if isinstance(obj, BeeRegionHeader):
         data = obj.export()
-    else:
-        data = obj.export_headers()[0]
+    else:  # the region header file of this part, as BeeNxp hands it out
+        data = obj.nxp.export_headers()[obj.slot]
     # EKIB = AES-ECB(sw_key, kib_key|kib_iv) at 0, EPRDB = AES-CBC(kib_key, kib_iv, prdb) at 0x80; prdb: tagl tagh ver fac start end mode lock ctr[16, reversed]
     kib = ecb_dec(sw_key_hint, data[0:32])
     prdb = cbc_dec(kib[:16], kib[16:32], data[0x80:0x180])
     if struct.unpack_from("<I", prdb, 0)[0] != 0x5F474154:
         raise RuntimeError("BEE PRDB tag not found after decryption with the software key")
     ctr = prdb[32:48][::-1]
+    mode, lock = struct.unpack_from("<II", prdb, 24)
+    if mode != 1:
+        raise RuntimeError(f"BEE PRDB with the AES mode {mode} (AES-CTR = 1 is the only mode of the case space)")
+    SEEN[0] = ([{0: "lock0", 0xFFFFFFFF: "lockF"}.get(lock, f"lock{lock:#x}")] if isinstance(obj, BeeRegionHeader) else [f"slot{obj.slot}"])
     f = {"counter": ctr, "kib_key": kib[:16], "kib_iv": kib[16:32], "sw_key": sw_key_hint}
     return f, [sw_key_hint, ctr]
 
 
 # ---------------------------------------------------------------------------------------------- HAB (encrypted, through the configuration)
-def hab_config(n, ex):
+def hab_config(n, ex, opt):
     d = os.path.join(job["dir"], "hab")  # the same template (same SecretKey_Name, same paths) for every build, as in a build loop
     os.makedirs(d, exist_ok=True)
     app = os.path.join(d, "app.bin")
     with open(app, "wb") as f:
         f.write(app_binary(n) * 4)
     dekfile = os.path.join(d, "dek.bin")
-    secret = {"SecretKey_Name": dekfile, "SecretKey_Length": 256, "SecretKey_VerifyIndex": 0, "SecretKey_TargetIndex": 0}
+    bits = int(opt[0][1:])  # option: SecretKey_Length 128 / 192 / 256
+    secret = {"SecretKey_Name": dekfile, "SecretKey_Length": bits, "SecretKey_VerifyIndex": 0, "SecretKey_TargetIndex": 0}
     if "dek" in ex:
         with open(dekfile, "wb") as f:
-            f.write(USER["hab_dek"])
+            f.write(USER["hab_dek"][: bits // 8])
         secret["SecretKey_ReuseDek"] = 1
     decrypt = {"Decrypt_Engine": "ANY", "Decrypt_EngineConfiguration": "0", "Decrypt_VerifyIndex": 0, "Decrypt_MacBytes": 16}
     if "nonce" in ex:
@@ -637,12 +712,13 @@ def hab_export(obj):
         raise RuntimeError("MAC structure of the Decrypt Data command not found in the exported CSF")
     nonce_len, mac_len = data[mac_off + 5], data[mac_off + 7]
     nonce = data[mac_off + 8 : mac_off + 8 + nonce_len]
+    SEEN[0] = [f"k{8 * len(dek)}"]
     return {"dek": dek, "nonce": nonce}, [dek, nonce]
 
 
 # ---------------------------------------------------------------------------------------------- HAB through the legacy BootImgRT class
-def habrt_ctor(n, ex):
-    img = BootImgRT(0x60000000, BootImgRT.IVT_OFFSET_NOR_FLASH)
+def habrt_ctor(n, ex, opt):
+    img = BootImgRT(0x60000000, {"nor": BootImgRT.IVT_OFFSET_NOR_FLASH, "sd": BootImgRT.IVT_OFFSET_OTHER}[opt[0]])
     # documented: "use empty bytes to create random key (recommended)"; nonce None = "random value is used"
     img.add_image(app_binary(n), address=-1, dek_key=(USER["habrt_dek"] if "dek" in ex else b""))
     return img
@@ -665,8 +741,8 @@ def habrt_export(obj):
 
 
 # ---------------------------------------------------------------------------------------------- bare helper
-def hex_call(n, ex):
-    return {"value": load_hex_string(None, 32)}
+def hex_call(n, ex, opt):
+    return {"value": load_hex_string(None, int(opt[0][1:]))}
 
 
 def hex_attrs(obj, fields):
@@ -674,6 +750,7 @@ def hex_attrs(obj, fields):
 
 
 def hex_export(obj):
+    SEEN[0] = [f"n{len(obj['value'])}"]
     return {"value": bytes(obj["value"])}, []
 
 
@@ -734,16 +811,29 @@ def export(kind, obj):
 
 
 ARTS = {}
+SEEN = [[]]   # set by the export readers: the options as the exported bytes show them
 out = []
 for i, st in enumerate(job["steps"]):
     n0 = len(DRAWS)
     PHASE[0] = f"{st['op']}#{i}"
     rec = {"op": st["op"], "art": st["art"]}
     try:
-        if st["op"] == "Construct":
+        if st["op"] == "Construct" and st.get("part", 1) > 1:
+            # a further artefact of the build the preceding step ran: nothing is built here
+            if st["art"] not in ARTS or ARTS[st["art"]][0] != st["kind"]:
+                raise RuntimeError(f"part {st['part']} of a build that did not emit it")
+            f, ctr = attrs(st["kind"], ARTS[st["art"]][1])
+        elif st["op"] == "Construct":
             # st["variant"]: which input image the build gets (0 / 1): in a loop over one template some builds repeat an earlier input, others do not
-            obj = BUILD[(st["kind"], st["how"])](st.get("variant", st["art"]), st["ex"])
-            ARTS[st["art"]] = (st["kind"], obj)
+            obj = BUILD[(st["kind"], st["how"])](st.get("variant", st["art"]), st["ex"], st.get("opt", []))
+            objs = obj if isinstance(obj, list) else [obj]
+            if len(objs) != st.get("parts", 1):
+                raise RuntimeError(f"the build emitted {len(objs)} artefacts, the history expects {st.get('parts', 1)}")
+            for i, o in enumerate(objs):
+                ARTS[st["art"] + i] = (st["kind"], o)
+            obj = objs[0]
+            if st["how"] == "ctor" and st["kind"] in ("SB20", "SB21"):
+                obj._c17_ctor = True
             f, ctr = attrs(st["kind"], obj)
         elif st["op"] == "Reconfigure":
             kind, obj = ARTS.pop(st["of"])  # the object holds the new artefact from now on
@@ -754,7 +844,9 @@ for i, st in enumerate(job["steps"]):
             f, ctr = attrs(kind, obj)
         else:
             kind, obj = ARTS[st["art"]]
+            SEEN[0] = []
             f, ctr = export(kind, obj)
+            rec["seen"] = list(SEEN[0])
         rec["fields"] = {k: bytes(v).hex() for k, v in f.items()}
         rec["ctr"] = [bytes(x).hex() for x in ctr]
     except Exception as e:  # noqa: BLE001 - reported to the parent, which treats a failing public builder as machinery failure
